@@ -243,7 +243,9 @@ func main() {
 			Exec:     func(h []event) (string, string, *seqx.Failure) { return exec(nmc, defs, h) },
 			MaxDepth: depth, Workers: 4,
 			// the real state space has 768 states per scenario; the cap only stops a run whose bookkeeping leaks (then exhaustive:false)
-			MaxStates: 6000,
+			MaxStates: 12000,
+			// every history of length <= 4 is executed, whatever the canonical key says (14 + 196 + 2744 unmerged states)
+			NoMergeDepth: 3,
 		})
 	}
 	r.Set("traces_validated_against_impl", r.Count("transitions"))
